@@ -61,11 +61,18 @@ pub fn arb_len(min: usize, limit: usize) -> BoxedStrategy<usize> {
     let lo = min;
     let small_hi = (min + 9).min(limit);
     let near_lo = limit.saturating_sub(5).max(min);
+    // lengths around u8 / power-of-two boundaries when the limit allows them
+    let marks: Vec<usize> = [15usize, 16, 17, 31, 32, 33, 63, 64, 65, 127, 128, 129, 254, 255, 256, 257, 511, 512, 513, 1023, 1024, 4095, 4096, 32767, 32768]
+        .into_iter()
+        .filter(|m| *m >= min && *m <= limit)
+        .collect();
+    let marks = if marks.is_empty() { vec![lo] } else { marks };
     prop_oneof![
         4 => lo..=small_hi,
         3 => near_lo..=limit,
         2 => lo..=limit.min(64).max(lo),
         1 => lo..=limit,
+        1 => proptest::sample::select(marks),
     ]
     .boxed()
 }
